@@ -178,6 +178,7 @@ def adapter(cfg, g):
 #define VP_SETBOL(b) yysetbol(b)
 #define VP_ATBOL() yyatbol()
 #define VP_CURBUF() yy_current_buffer()
+#define VP_LINENO() yylineno
 #define VP_A0
 #define VP_A1
 '''
@@ -201,6 +202,7 @@ def adapter(cfg, g):
 #define VP_SETBOL(b) yysetbol(b)
 #define VP_ATBOL() yyatbol()
 #define VP_CURBUF() yy_current_buffer()
+#define VP_LINENO() yyget_lineno(vp_scanner)
 #define VP_A0 vp_scanner
 #define VP_A1 , vp_scanner
 '''
@@ -224,6 +226,7 @@ def adapter(cfg, g):
 #define VP_SETBOL(b) yysetbol((b), vp_scanner)
 #define VP_ATBOL() yyatbol(vp_scanner)
 #define VP_CURBUF() yy_current_buffer(vp_scanner)
+#define VP_LINENO() yyget_lineno(vp_scanner)
 #define VP_A0 vp_scanner
 #define VP_A1 , vp_scanner
 '''
@@ -307,6 +310,7 @@ def e1_harness(g, cfg, spec, n, maxnul, nodefault=False, witness=None, check_pos
     H.append('#define VP_MAXNUL %d' % maxnul)
     H.append('#define VP_7BIT %d' % (1 if cfg.seven_bit or spec.csize == 128 else 0))
     H.append('#define VP_NODEFAULT %d' % (1 if nodefault else 0))
+    H.append('#define VP_YYLINENO %d' % (1 if ('M4_MODE_YYLINENO */' in g.text) else 0))
     H.append('#define VP_CHECK_POST %d' % (1 if (check_post and source == 'buffer') else 0))
     H.append('#define VP_SOURCE_%s 1' % source.upper())
     H.append('#define VP_ARRAY %d' % (1 if is_array(g) else 0))
@@ -386,6 +390,15 @@ int main(void) {
   for (int i = 0; i < VP_N; i++)
     if (i < tl) VP_ASSERT((unsigned char)tx[i] == vpi_in[i], "yytext bytes");
   VP_ASSERT(tx[tl] == 0, "yytext is NUL terminated");
+  {
+    int nl = 0;
+    for (int i = 0; i < VP_N; i++) if (i < tl && vpi_in[i] == '\n') nl++;
+#if VP_YYLINENO
+    VP_ASSERT(VP_LINENO() == 1 + nl, "yylineno is one plus the number of newlines consumed");
+#else
+    VP_ASSERT(VP_LINENO() == 1, "without %option yylineno the line number is never modified");
+#endif
+  }
 #if VP_CHECK_POST
   /* post-state: the scanner is positioned exactly behind the token, so the
    * next call is again a first-token step on the suffix */
@@ -940,4 +953,278 @@ int main(void) {
   return 0;
 }
 ''')
+    return '\n'.join(H)
+
+
+# ---------------------------------------------------------------------------
+# E4: histories -- actions that call the documented stream-editing API
+
+def gen_history_scanner(tree, workdir, spec, cfg, mode, extra_options=(), base='scanner'):
+    """All rules share one action site (the documented '|' action) whose body
+    is the VP_ACT macro; the macro text is placed in a section-1 code block so
+    that flex sees the REJECT / yymore() it contains."""
+    assert not spec.has_trailing and not spec.eofs
+    if mode == 'reject':
+        body = 'if (vp_visit(yy_act, yytext, yyleng)) { REJECT; } return yy_act;'
+    elif mode == 'yyreject':
+        body = 'if (vp_visit(yy_act, yytext, yyleng)) { yyreject(); } return yy_act;'
+    elif mode == 'less':
+        body = 'if (vp_visit(yy_act, yytext, yyleng)) { yyless(vp_arg); vp_after_less(yytext, yyleng); } return yy_act;'
+    elif mode == 'unput':
+        body = 'if (vp_visit(yy_act, yytext, yyleng)) { yyunput(vp_arg); } return yy_act;'
+    elif mode == 'input':
+        body = 'if (vp_visit(yy_act, yytext, yyleng)) { vp_inp = yyinput(); vp_after_input(); } return yy_act;'
+    elif mode == 'more':
+        body = 'if (vp_visit(yy_act, yytext, yyleng)) { yymore(); } return yy_act;'
+    else:
+        raise ValueError(mode)
+    prologue = ('int vp_visit(int, const char *, int); void vp_after_less(const char *, int); void vp_after_input(void);\n'
+                'extern int vp_arg, vp_inp;')
+    last = spec.rules[-1].num
+
+    def action(r):
+        return '{ %s }' % body
+
+    saved = [r.fallthrough for r in spec.rules]
+    try:
+        for r in spec.rules:
+            r.fallthrough = (r.num != last)
+        g = gen_scanner(tree, workdir, spec, cfg, action=action, extra_options=extra_options,
+                        prologue=prologue, base=base)
+    finally:
+        for r, f in zip(spec.rules, saved):
+            r.fallthrough = f
+    g.mode = mode
+    return g
+
+
+def e4_reject_harness(g, cfg, spec, n, maxnul=1, witness=False, rej_k=None):
+    H = [common_head(g, cfg, spec, max(n, 1))]
+    if rej_k is not None:
+        H.append('#define VP_REJ_K %d' % rej_k)
+    H.append('#define VP_N %d' % n)
+    H.append('#define VP_MAXNUL %d' % maxnul)
+    H.append('#define VP_MAXVIS %d' % (n * (len(spec.rules) + 1) + 2))
+    if witness:
+        H.append('#define VP_WITNESS 1')
+    H.append(r'''
+unsigned char vpi_in[VP_N > 0 ? VP_N : 1];
+unsigned char vpi_rej[VP_MAXVIS];
+int vpi_sc, vpi_bol;
+int vp_arg, vp_inp;
+static char vp_buf[VP_N + 2];
+static int vp_nvis;
+/* reference: all (length, rule) matches at the start of the input, longest
+ * first, rule order within a length (manual, REJECT) */
+static int vp_exp_rule[VP_MAXVIS], vp_exp_len[VP_MAXVIS], vp_nexp;
+void vp_after_less(const char *t, int l) {}
+void vp_after_input(void) {}
+
+int vp_visit(int act, const char *text, int leng) {
+  int v = vp_nvis++;
+  VP_ASSERT(v < vp_nexp, "REJECT visits only matches that exist");
+  VP_ASSERT(act == vp_exp_rule[v], "REJECT proceeds to the next-best rule in the documented order");
+  VP_ASSERT(leng == vp_exp_len[v], "yyleng of the alternative match");
+  for (int i = 0; i < VP_N; i++) if (i < leng) VP_ASSERT((unsigned char)text[i] == vpi_in[i], "yytext of the alternative match");
+  VP_ASSERT(text[leng] == 0, "yytext terminated");
+#ifdef VP_REJ_K
+  return v < VP_REJ_K;          /* the first VP_REJ_K visits reject */
+#else
+  return vpi_rej[v < VP_MAXVIS ? v : 0] != 0;
+#endif
+}
+
+int main(void) {
+  VP_DECL_SCANNER
+#ifdef REPLAY
+#include "vp_replay_set.inc"
+#else
+  for (int i = 0; i < VP_N; i++) vpi_in[i] = nondet_uchar();
+  for (int i = 0; i < VP_MAXVIS; i++) vpi_rej[i] = nondet_uchar();
+  vpi_sc = nondet_int(); vpi_bol = nondet_int();
+#endif
+  VP_ASSUME(vpi_sc >= 0 && vpi_sc < VP_NSC);
+  VP_ASSUME(vpi_bol == 0 || vpi_bol == 1);
+  int nuls = 0;
+  for (int i = 0; i < VP_N; i++) { if (vpi_in[i] == 0) nuls++; vp_buf[i] = (char)vpi_in[i]; }
+  VP_ASSUME(nuls <= VP_MAXNUL);
+  for (int i = 0; i < VP_MAXVIS; i++) VP_ASSUME(vpi_rej[i] <= 1);
+#ifdef VP_REJ_K
+  for (int i = 0; i < VP_MAXVIS; i++) VP_ASSUME(vpi_rej[i] == (i < VP_REJ_K));
+#endif
+  vp_buf[VP_N] = 0; vp_buf[VP_N + 1] = 0;
+  /* per prefix length, the set of matching rules */
+  uint64_t acc[VP_N + 1];
+  { vp_state s; vp_init(&s); acc[0] = 0;
+    for (int i = 0; i < VP_N; i++) { vp_step(&s, i == 0, vpi_in[i], vpi_sc, vpi_bol); acc[i + 1] = vp_accset(&s); } }
+  vp_nexp = 0;
+  for (int L = VP_N; L >= 1; L--)
+    for (int r = 1; r <= VP_NRULES; r++)
+      if (acc[L] >> r & 1) { vp_exp_rule[vp_nexp] = r; vp_exp_len[vp_nexp] = L; vp_nexp++; }
+  /* visits end at the first action that does not reject; the default rule never rejects */
+  int last = 0;
+  for (int v = 0; v < VP_MAXVIS; v++) if (v < vp_nexp) { last = v; if (vp_exp_rule[v] == VP_DEFAULT_RULE || !vpi_rej[v]) break; }
+  vp_expect_fatal = 0;
+  VP_INIT_SCANNER();
+  yybuffer b = VP_SCAN_BUFFER(vp_buf, VP_N + 2);
+  VP_ASSERT(b != 0, "yy_scan_buffer");
+  VP_BEGIN(vpi_sc); VP_SETBOL(vpi_bol);
+  int t = VP_LEX();
+  if (VP_N == 0) { VP_ASSERT(t == 0, "end of input"); return 0; }
+  VP_ASSERT(t == vp_exp_rule[last], "token finally returned is the first match whose action did not reject");
+  VP_ASSERT(VP_LENG == vp_exp_len[last], "length of the token finally returned");
+  VP_ASSERT(vp_nvis == (vp_exp_rule[last] == VP_DEFAULT_RULE ? last : last + 1), "every alternative before it was visited exactly once, in order");
+  VP_ASSERT(VP_G(yy_c_buf_p) == vp_buf + VP_LENG, "scan position is behind the token");
+#ifdef VP_WITNESS
+  VP_ASSERT(!(vp_nvis >= 2), "WITNESS: at least two alternatives visited");
+#endif
+  return 0;
+}
+''')
+    return '\n'.join(H)
+
+
+def e4_edit_harness(g, cfg, spec, n, mode='less', maxnul=0, witness=False):
+    """One yylex() step whose action applies a stream edit chosen by the
+    solver (yyless(k) / yyunput(c) / yyinput(), each optional); afterwards the
+    scanner's unread input must be exactly the edited stream (the invariant
+    under which the first-token obligations apply to the next call).
+    mode 'more': two steps, yymore() in the first action."""
+    H = [common_head(g, cfg, spec, max(n, 1) + 1)]
+    H.append('#define VP_N %d' % n)
+    H.append('#define VP_MAXNUL %d' % maxnul)
+    H.append('#define VP_MODE_%s 1' % mode.upper())
+    H.append('#define VP_YYLINENO %d' % (1 if ('M4_MODE_YYLINENO */' in g.text) else 0))
+    H.append('#define VP_ARRAY %d' % (1 if is_array(g) else 0))
+    if witness:
+        H.append('#define VP_WITNESS 1')
+    H.append(r"""
+unsigned char vpi_in[VP_N > 0 ? VP_N : 1];
+int vpi_op, vpi_arg, vpi_sc;
+int vp_arg, vp_inp;
+static char vp_buf[VP_N + 2];
+static int vp_step_no, vp_tok_rule[2], vp_tok_len[2];
+static unsigned char vp_tok_text[2][VP_N + 2];
+static unsigned char vp_s2[VP_N + 2];     /* the edited stream */
+
+int vp_visit(int act, const char *text, int leng) {
+  int k = vp_step_no;
+  VP_ASSERT(k < 2, "one action per yylex call");
+  vp_tok_rule[k] = act; vp_tok_len[k] = leng;
+  for (int i = 0; i < VP_N + 1; i++) if (i <= leng) vp_tok_text[k][i] = (unsigned char)text[i];
+  vp_step_no++;
+  if (k == 0) { vp_arg = vpi_arg; return vpi_op; }
+  return 0;
+}
+void vp_after_less(const char *t, int l) {
+  VP_ASSERT(l == vpi_arg, "yyless(n) leaves yyleng == n");
+  for (int i = 0; i < VP_N; i++) if (i < l) VP_ASSERT((unsigned char)t[i] == vpi_in[i], "yyless(n) keeps the first n characters in yytext");
+  VP_ASSERT(t[l] == 0, "yytext terminated after yyless");
+}
+void vp_after_input(void) {}
+
+int main(void) {
+  VP_DECL_SCANNER
+#ifdef REPLAY
+#include "vp_replay_set.inc"
+#else
+  for (int i = 0; i < VP_N; i++) vpi_in[i] = nondet_uchar();
+  vpi_op = nondet_int(); vpi_arg = nondet_int(); vpi_sc = nondet_int();
+#endif
+  VP_ASSUME(vpi_sc >= 0 && vpi_sc < VP_NSC);
+  VP_ASSUME(vpi_op == 0 || vpi_op == 1);
+  int nuls = 0;
+  for (int i = 0; i < VP_N; i++) { if (vpi_in[i] == 0) nuls++; vp_buf[i] = (char)vpi_in[i]; }
+  VP_ASSUME(nuls <= VP_MAXNUL);
+  vp_buf[VP_N] = 0; vp_buf[VP_N + 1] = 0;
+  int tot1 = 0;
+  int r1 = vp_first_token(vpi_in, VP_N, vpi_sc, 1, &tot1);
+  VP_ASSUME(VP_N > 0 && r1 != VP_DEFAULT_RULE);   /* the first token runs the shared action */
+  int len1 = tot1, n2 = 0, nl_delta = 0;
+#if defined(VP_MODE_LESS)
+  if (vpi_op) {                            /* yyless(k): first k characters kept, rest scanned again */
+    VP_ASSUME(vpi_arg >= 0 && vpi_arg <= len1);
+    for (int i = 0; i < VP_N; i++) if (i >= vpi_arg) vp_s2[n2++] = vpi_in[i];
+    for (int i = 0; i < VP_N; i++) if (i >= vpi_arg && i < len1 && vpi_in[i] == '\n') nl_delta--;
+  } else
+#elif defined(VP_MODE_UNPUT)
+  if (vpi_op) {                            /* yyunput(c): c is the next character read */
+    VP_ASSUME(vpi_arg >= 0 && vpi_arg <= 255);
+    VP_ASSUME(len1 >= 2);                  /* within the push-back room of a full user-owned buffer */
+    vp_s2[n2++] = (unsigned char)vpi_arg;
+    for (int i = 0; i < VP_N; i++) if (i >= len1) vp_s2[n2++] = vpi_in[i];
+    if (vpi_arg == '\n') nl_delta--;
+  } else
+#elif defined(VP_MODE_INPUT)
+  if (vpi_op) {                            /* yyinput(): consumes and returns the next character */
+    for (int i = 0; i < VP_N; i++) if (i > len1) vp_s2[n2++] = vpi_in[i];
+    if (len1 < VP_N && vpi_in[len1] == '\n') nl_delta++;
+  } else
+#endif
+  {
+    for (int i = 0; i < VP_N; i++) if (i >= len1) vp_s2[n2++] = vpi_in[i];
+  }
+  vp_expect_fatal = 0;
+  VP_INIT_SCANNER();
+  yybuffer b = VP_SCAN_BUFFER(vp_buf, VP_N + 2);
+  VP_ASSERT(b != 0, "yy_scan_buffer");
+  VP_BEGIN(vpi_sc);
+  int t1 = VP_LEX();
+  VP_ASSERT(t1 == r1 && vp_tok_rule[0] == r1 && vp_tok_len[0] == len1, "first token");
+#if defined(VP_MODE_INPUT)
+  if (vpi_op) {
+    int want = (len1 < VP_N) ? vpi_in[len1] : 0;   /* end-of-input value only when no input remains */
+    VP_ASSERT(vp_inp == want, "yyinput() returns the next character of the input, its end-of-input value only at the end");
+  }
+#endif
+#if VP_YYLINENO
+  { int nl = 0; for (int i = 0; i < VP_N; i++) if (i < len1 && vpi_in[i] == '\n') nl++;
+    VP_ASSERT(VP_LINENO() == 1 + nl + nl_delta, "yylineno after yyless/yyunput/yyinput"); }
+#endif
+#if !defined(VP_MODE_MORE)
+  /* invariant: the unread input is exactly the edited stream */
+  {
+    yybuffer cb = VP_CURBUF();
+    char *base = cb->yy_ch_buf, *cp = VP_G(yy_c_buf_p);
+    int nn = VP_G(yy_n_chars), at = (int)(cp - base);
+    int at_end = (vpi_op && len1 >= VP_N);         /* yyinput() at end of input resets the buffer */
+#if defined(VP_MODE_INPUT)
+    if (at_end) { VP_ASSERT(n2 == 0, "nothing left"); }
+    else
+#endif
+    {
+      VP_ASSERT(at >= 0 && at <= nn, "scan position within the buffered text");
+      VP_ASSERT(nn - at == n2, "no input lost or duplicated by the edit");
+      for (int i = 0; i < VP_N + 1; i++) if (i < n2) {
+        unsigned char have = (i == 0) ? (unsigned char)VP_G(yy_hold_char) : (unsigned char)base[at + i];
+        VP_ASSERT(have == vp_s2[i], "unread input is the edited stream");
+      }
+      VP_ASSERT(base[nn] == 0 && base[nn + 1] == 0, "end-of-buffer characters in place");
+    }
+  }
+#else
+  {
+    int tot2 = 0;
+    int r2 = vp_first_token(vp_s2, n2, vpi_sc, 0, &tot2);
+    int t2 = VP_LEX();
+    if (n2 == 0) { VP_ASSERT(t2 == 0, "end of input"); return 0; }
+    if (r2 == VP_DEFAULT_RULE) { VP_ASSERT(t2 == VP_DEFAULT_RULE, "second token falls to the default rule"); }
+    else {
+      VP_ASSERT(t2 == r2 && vp_tok_rule[1] == r2, "second token is the next token of the input");
+      if (vpi_op) {
+        VP_ASSERT(vp_tok_len[1] == len1 + tot2, "yymore(): yyleng covers both tokens");
+        for (int i = 0; i < VP_N; i++) if (i < len1 + tot2) VP_ASSERT(vp_tok_text[1][i] == vpi_in[i], "yymore(): yytext is the previous text followed by the new token");
+      } else {
+        VP_ASSERT(vp_tok_len[1] == tot2, "length of the second token");
+        for (int i = 0; i < VP_N + 1; i++) if (i < tot2) VP_ASSERT(vp_tok_text[1][i] == vp_s2[i], "text of the second token");
+      }
+    }
+  }
+#endif
+#ifdef VP_WITNESS
+  VP_ASSERT(!(vpi_op != 0 && n2 > 0), "WITNESS: an edit with input left");
+#endif
+  return 0;
+}
+""")
     return '\n'.join(H)
